@@ -23,7 +23,8 @@ Creds == {"none"} \cup SessionCreds \cup BearerCreds \cup BasicCreds \cup ComboC
 \* dave: the e-mail claim holds "dave.example.com" (not an address); erin: no e-mail claim, subject "erin.example.com" (bearer only).
 \* Neither matches the e-mail rule, which admits addresses @example.com.
 Users == {"alice", "bob", "carol", "dave", "erin"}
-Endpoints == {"proxy", "authonly", "userinfo", "sign_in", "start", "static", "robots", "ping"}
+\* old_prefix: with a custom --proxy-prefix the default location /oauth2/userinfo is an ordinary protected path
+Endpoints == {"proxy", "authonly", "userinfo", "sign_in", "start", "static", "robots", "ping", "old_prefix"}
 Methods == {"GET", "POST", "OPTIONS", "HEAD", "DELETE"}
 \* which bypass the REQUEST matches (route: path under /open; ip: trusted source address), or which one it only CLAIMS to match through
 \* client-supplied headers the proxy must ignore with reverse-proxy off (X-Forwarded-Uri: /open/x ; X-Forwarded-For / X-Real-Ip: trusted address)
@@ -31,7 +32,7 @@ Bypass  == {"none", "route", "ip", "spoof_uri", "spoof_ip"}
 RealBypass == {"route", "ip"}
 ErrModes == {"page", "force_json", "accept_json", "api_route"}
 
-Cfgs == [store : {"cookie", "redis"}, preflight : BOOLEAN, forceJSON : BOOLEAN, spb : BOOLEAN, bearer : BOOLEAN, htpasswd : BOOLEAN]
+Cfgs == [store : {"cookie", "redis"}, preflight : BOOLEAN, forceJSON : BOOLEAN, spb : BOOLEAN, bearer : BOOLEAN, htpasswd : BOOLEAN, customPrefix : BOOLEAN]
 
 \* ---- requirement -------------------------------------------------------------------------------
 UserAuthorised(u) == u = "alice"
@@ -50,7 +51,7 @@ Req_Served(r, cfg)   == (CredValid(r.cred, cfg) /\ Authorised(r.cred, r.user)) \
 Req_Identity(r, cfg) == CredValid(r.cred, cfg) /\ (Authorised(r.cred, r.user) \/ Bypassed(r, cfg))
 
 Req_Obs(r, cfg) ==
-    CASE r.endpoint = "proxy" ->
+    CASE r.endpoint \in {"proxy", "old_prefix"} ->
            IF Req_Served(r, cfg) THEN [served |-> TRUE, upstream |-> 1]
            ELSE [served |-> FALSE, upstream |-> 0, class |-> [oneof |-> <<"signin", "idp_redirect", "401", "403">>], identityInBody |-> FALSE]
       [] r.endpoint = "authonly" ->
@@ -63,7 +64,7 @@ Req_Obs(r, cfg) ==
 
 \* the response class the code is expected to choose (conformance only)
 Impl_Class(r, cfg) ==
-    IF r.endpoint # "proxy" \/ Req_Served(r, cfg) THEN "n/a"
+    IF r.endpoint \notin {"proxy", "old_prefix"} \/ Req_Served(r, cfg) THEN "n/a"
     ELSE IF CredValid(r.cred, cfg) THEN "403"
     ELSE IF cfg.forceJSON \/ r.errmode \in {"accept_json", "api_route"} THEN "401"
     ELSE IF cfg.spb THEN "idp_redirect" ELSE "signin"
@@ -71,7 +72,7 @@ Impl_Class(r, cfg) ==
 \* ---- cases ---------------------------------------------------------------------------------------
 Mk(cfg, cred, u, ep, m, bp, em) == [cfg |-> cfg, cred |-> cred, user |-> u, endpoint |-> ep, method |-> m, bypass |-> bp, errmode |-> em]
 
-DefaultCfg(cfg) == ~cfg.preflight /\ ~cfg.forceJSON /\ ~cfg.spb /\ cfg.bearer /\ cfg.htpasswd
+DefaultCfg(cfg) == ~cfg.preflight /\ ~cfg.forceJSON /\ ~cfg.spb /\ cfg.bearer /\ cfg.htpasswd /\ ~cfg.customPrefix
 InScope(c) ==
     /\ (c.cred = "ticket_no_entry" => c.cfg.store = "redis")
     /\ (c.errmode = "force_json" <=> c.cfg.forceJSON)
@@ -80,8 +81,12 @@ InScope(c) ==
     /\ (c.user # "alice" => c.cred \in {"valid", "aged_valid", "bearer_valid", "expired", "valid_plus_badbearer"})
     /\ (c.user = "erin" => c.cred = "bearer_valid")
     /\ (c.bypass \in {"spoof_uri", "spoof_ip"} => c.endpoint \in {"proxy", "authonly"} /\ c.errmode \in {"page", "force_json", "accept_json"})
-    /\ (c.endpoint \notin {"proxy", "authonly", "userinfo"} => c.method = "GET" /\ c.bypass = "none" /\ c.errmode = "page" /\ DefaultCfg(c.cfg)
+    /\ (c.endpoint \notin {"proxy", "authonly", "userinfo"} => c.method = "GET" /\ c.bypass = "none" /\ c.errmode = "page"
+                                                             /\ (DefaultCfg(c.cfg) \/ [c.cfg EXCEPT !.customPrefix = FALSE] \in {x \in Cfgs : DefaultCfg(x)})
                                                              /\ c.cred \in {"none", "valid", "expired", "bearer_valid"})
+    /\ (c.endpoint = "old_prefix" <=> (c.cfg.customPrefix /\ c.endpoint \notin {"proxy", "authonly", "userinfo", "sign_in", "start", "static", "robots", "ping"}))
+    /\ (c.cfg.customPrefix => c.cred \in {"none", "valid", "expired", "tamper_sig", "bearer_valid", "basic_valid"} /\ c.errmode = "page" /\ c.method = "GET"
+                               /\ c.cfg.store = "cookie" /\ c.bypass \in {"none", "ip"})
     /\ (c.method \in {"POST", "HEAD", "DELETE"} => c.endpoint \in {"proxy", "authonly"})
     /\ (c.method \in {"HEAD", "DELETE"} => c.errmode = "page" /\ c.bypass \in {"none", "route"})
     \* feature switches only matter for the credentials they govern
@@ -95,7 +100,7 @@ InScope(c) ==
           /\ (c.method = "POST" => c.cred \in {"none", "valid", "expired", "bearer_valid"})
           /\ (c.method \in {"HEAD", "DELETE"} => c.cred \in {"none", "valid", "tamper_sig"} /\ c.user = "alice" /\ DefaultCfg(c.cfg))
           /\ (c.errmode \in {"accept_json", "api_route"} => c.cred \in {"none", "valid", "expired", "tamper_value", "bearer_otherkey"} /\ c.method = "GET")
-          /\ (~DefaultCfg(c.cfg) => Cardinality({f \in {"preflight", "forceJSON", "spb"} : c.cfg[f]} \cup {f \in {"bearer", "htpasswd"} : ~c.cfg[f]}) = 1))
+          /\ (~DefaultCfg(c.cfg) => Cardinality({f \in {"preflight", "forceJSON", "spb", "customPrefix"} : c.cfg[f]} \cup {f \in {"bearer", "htpasswd"} : ~c.cfg[f]}) = 1))
 
 VARIABLE c
 Init == \E cfg \in Cfgs, cred \in Creds, u \in Users, ep \in Endpoints, m \in Methods, bp \in Bypass, em \in ErrModes :
